@@ -326,7 +326,21 @@ func c03Run(t *testing.T, c c03Case, rec *vfkit.Recorder) (info c03Info, err err
 			}
 			if r.err == nil {
 				cls["attempt_succeeded"] = true
-				if serr := frCheckStore(name, &served); serr != nil {
+				// the stored manifest is the one this attempt was served (faults size0 etc. serve variants of it)
+				want := served
+				reg.mu.Lock()
+				if lm, ok := reg.lastManifest[key]; ok {
+					want = lm
+				}
+				lied := map[string]bool{}
+				for d := range reg.sizeLied {
+					lied[d] = true
+				}
+				reg.mu.Unlock()
+				if len(lied) > 0 {
+					cls["success_after_manifest_with_wrong_sizes"] = true
+				}
+				if serr := frCheckStore(name, &want, lied); serr != nil {
 					fail("%s: pull reported success but %v", what, serr)
 					return false
 				}
@@ -342,7 +356,13 @@ func c03Run(t *testing.T, c c03Case, rec *vfkit.Recorder) (info c03Info, err err
 				}
 				// if the name resolves, it must resolve to a complete, intact model (the old version or the new one)
 				if _, _, gerr := GetManifest(mp); gerr == nil {
-					if serr := frCheckStore(name, nil); serr != nil {
+					reg.mu.Lock()
+					lied := map[string]bool{}
+					for d := range reg.sizeLied {
+						lied[d] = true
+					}
+					reg.mu.Unlock()
+					if serr := frCheckStore(name, nil, lied); serr != nil {
 						fail("%s: pull failed (%v) and the name now resolves to a broken model: %v", what, r.err, serr)
 						return false
 					}
